@@ -766,6 +766,13 @@ fn read_cnf(path: &Path, loaded_files: &mut BTreeSet<PathBuf>) -> Result<Config,
 				set_cfg_attr!(tmp_glob.pk_file_mode, new_glob.pk_file_mode);
 				set_cfg_attr!(tmp_glob.pk_file_user, new_glob.pk_file_user);
 				set_cfg_attr!(tmp_glob.pk_file_group, new_glob.pk_file_group);
+				set_cfg_attr!(tmp_glob.cert_file_ext, new_glob.cert_file_ext);
+				set_cfg_attr!(tmp_glob.pk_file_ext, new_glob.pk_file_ext);
+				set_cfg_attr!(tmp_glob.file_name_format, new_glob.file_name_format);
+				set_cfg_attr!(tmp_glob.random_early_renew, new_glob.random_early_renew);
+				set_cfg_attr!(tmp_glob.renew_delay, new_glob.renew_delay);
+				set_cfg_attr!(tmp_glob.root_certificates, new_glob.root_certificates);
+				tmp_glob.env.extend(new_glob.env);
 				config.global = Some(tmp_glob);
 			}
 		}
